@@ -332,6 +332,46 @@ func closeLoops(fn *ssa.Function, deleted map[edge]bool) {
 					}
 				}
 			}
+			// zero-trip guards: a branch taken when the loop's bound is zero (`if n == 0 { return }`
+			// before `for i := 0; i < n; i++`) bypasses the loop exactly like the header exit does
+			if bound := loopBound(l); bound != nil {
+				for _, d := range fn.Blocks {
+					if l.blocks[d.Index] || len(d.Instrs) == 0 || len(d.Succs) != 2 {
+						continue
+					}
+					iff, ok := d.Instrs[len(d.Instrs)-1].(*ssa.If)
+					if !ok {
+						continue
+					}
+					a := atomOf(iff.Cond)
+					if a.Kind != "cmp" {
+						continue
+					}
+					x, y, op := a.X, a.Y, a.Op
+					if _, isC := constInt(x); isC {
+						x, y, op = y, x, swapOp(op)
+					}
+					k, isC := constInt(y)
+					if !isC || !sameValue(x, bound, 0) {
+						continue
+					}
+					for ei := 0; ei < 2; ei++ {
+						o := op
+						if ei == 1 {
+							o = negOp(o)
+						}
+						zero := (k == 0 && (o == token.EQL || o == token.LEQ)) || (k == 1 && o == token.LSS)
+						if !zero {
+							continue
+						}
+						e := edge{d.Index, d.Succs[ei].Index}
+						if !deleted[e] {
+							deleted[e] = true
+							changed = true
+						}
+					}
+				}
+			}
 			// rotated loop guard in the pre-header
 			if d := l.header.Idom(); d != nil && !l.blocks[d.Index] && len(d.Succs) == 2 {
 				for i, s := range d.Succs {
@@ -596,4 +636,35 @@ func LenEqFact(name string, ma, mb func(v ssa.Value) bool) Fact {
 		}
 		return 0, false
 	})
+}
+
+// loopBound: the value N of the loop test `i < N` (i the counter phi of the header), nil if the
+// header does not have that form.
+func loopBound(l *loopInfo) ssa.Value {
+	if len(l.header.Instrs) == 0 {
+		return nil
+	}
+	iff, ok := l.header.Instrs[len(l.header.Instrs)-1].(*ssa.If)
+	if !ok {
+		return nil
+	}
+	a := atomOf(iff.Cond)
+	if a.Kind != "cmp" {
+		return nil
+	}
+	inHeader := func(v ssa.Value) bool {
+		v = stripConv(v)
+		if bo, ok := v.(*ssa.BinOp); ok && bo.Op == token.ADD {
+			v = stripConv(bo.X)
+		}
+		ph, ok := v.(*ssa.Phi)
+		return ok && ph.Block() == l.header
+	}
+	switch {
+	case (a.Op == token.LSS || a.Op == token.NEQ) && inHeader(a.X) && !inHeader(a.Y):
+		return stripConv(a.Y)
+	case (a.Op == token.GTR || a.Op == token.NEQ) && inHeader(a.Y) && !inHeader(a.X):
+		return stripConv(a.X)
+	}
+	return nil
 }
